@@ -22,6 +22,12 @@ func diffV6(rec *obs.Rec, b []byte) *obs.Fail {
 	var why refv6.Reason
 	want, verdict := refv6.DecodeMsg(b, cov.skip, &why)
 	in := append([]byte{}, b...)
+	if len(b)%8 == 0 {
+		// refused inputs come first (one case in eight): the verdict and the values read depend on these bytes alone
+		for _, bad := range v6Refused() {
+			_, _ = dhcpv6.FromBytes(bad)
+		}
+	}
 	got, err := dhcpv6.FromBytes(in)
 	if !bytes.Equal(in, b) {
 		return obs.Failf("C05/decoder-wrote-to-its-input", "FromBytes leaves its input unchanged", "input changed at byte %d", firstDiff(in, b))
